@@ -212,6 +212,10 @@ func runC10(t *testing.T, c explore.Case) (res explore.Result) {
 		case "put":
 			a["v"] = "immutable value"
 			a["seq"] = 0
+		case "putnoseq": // a put that also lacks seq: with a bad token it must still be met with silence
+			a["v"] = "immutable value"
+		case "annnoport": // announce_peer with neither port nor implied_port
+			a["info_hash"] = sim.IDStr(ihB)
 		case "putm":
 			pub := pubOf(bepKey1)
 			encV := sim.Enc("mutable value")
@@ -221,8 +225,11 @@ func runC10(t *testing.T, c explore.Case) (res explore.Result) {
 			a["sig"] = string(refSign(bepKey1, nil, 1, encV))
 		}
 		method := p.method
-		if method == "putm" {
+		switch method {
+		case "putm", "putnoseq":
 			method = "put"
+		case "annnoport":
+			method = "announce_peer"
 		}
 		putsBefore, addsBefore := st.numPuts(), ps.numAdds()
 		ws, delivered := y.Deliver(user, sim.Query("wq", method, a))
@@ -243,7 +250,12 @@ func runC10(t *testing.T, c explore.Case) (res explore.Result) {
 		mustAccept := exact && sameIP && p.delay <= 10*time.Minute
 		mustReject := !exact || !sameIP || p.delay > 15*time.Minute
 		desc := fmt.Sprintf("%s via %s: token %s, issued at +%v, used %v later by %s", p.method, p.via, p.variant, p.issue, p.delay, p.user)
+		incomplete := p.method == "putnoseq" || p.method == "annnoport"
 		switch {
+		case incomplete && mustReject && (replied || effect):
+			res.Viol = fmt.Sprintf("bad-token-honoured: %s: replied=%v (%s) effect=%v", desc, replied, Briefs(ws), effect)
+		case incomplete:
+			// with a good token what happens to an incomplete write is C08's business
 		case replied != effect:
 			res.Viol = fmt.Sprintf("half-effect: %s: replied=%v (%s) effect=%v", desc, replied, Briefs(ws), effect)
 		case mustAccept && !(replied && effect):
@@ -251,7 +263,7 @@ func runC10(t *testing.T, c explore.Case) (res explore.Result) {
 		case mustReject && (replied || effect):
 			res.Viol = fmt.Sprintf("bad-token-honoured: %s: replied=%v (%s) effect=%v", desc, replied, Briefs(ws), effect)
 		}
-		if res.Viol == "" && replied {
+		if res.Viol == "" && replied && !incomplete {
 			outs := DecodeWrites(ws)
 			if len(outs) != 1 || outs[0].Y() != "r" {
 				res.Viol = fmt.Sprintf("wrong-reply: %s: %s", desc, Briefs(ws))
@@ -304,6 +316,20 @@ func TestC10(t *testing.T) {
 				w.Flush(false)
 			}
 			// mutations and foreign users
+			if method == "put" {
+				u := idx
+				idx++
+				if w.Mine(u) {
+					w.BeginUnit(u, "incomplete writes via="+via)
+					for _, m2 := range []string{"putnoseq", "annnoport"} {
+						for _, v := range []string{"exact", "empty", "absent", "flip0", "flip159", "trunc19", "foreign", "otherip"} {
+							run(c10Params{via, m2, "v4", v, time.Second, time.Second})
+						}
+						run(c10Params{via, m2, "v4", "exact", time.Second, 16 * time.Minute})
+					}
+					w.Flush(false)
+				}
+			}
 			u := idx
 			idx++
 			if w.Mine(u) {
